@@ -178,7 +178,9 @@ pub fn dispatch(op: &str, a: &[&str]) -> Option<Ans> {
             let ops: u64 = a[0].parse().unwrap();
             let mem: usize = a[1].parse().unwrap();
             let (pwd, salt) = (unhex(a[2]), unhex(a[3]));
-            let cfg = Config::interactive().with_opslimit(ops).with_memlimit(mem);
+            // optional 5th argument: a non-default hash_length in the Config (must not influence the derived key)
+            let mut cfg = Config::interactive().with_opslimit(ops).with_memlimit(mem);
+            if a.len() > 4 { cfg = cfg.with_hash_length(a[4].parse().unwrap()).with_salt_length(salt.len()); }
             let kp: Result<dryoc::keypair::StackKeyPair, _> = VecPwHash::derive_keypair(&pwd, salt.clone(), cfg);
             let sa = if salt.len() == 16 {
                 let mut sk = [0u8; 32];
